@@ -102,6 +102,32 @@ theorem aliasItem_mentions (n t : String) (b : Bool) : Scope.itemMentions (alias
 theorem aliasItem_defines (n t : String) (b : Bool) : Scope.itemDefines (aliasItem n t b) = some n := by
   cases b <;> rfl
 
+/-- `aliasMember` on an `aliasItem`: the flattened member rendered for the fragment -/
+theorem aliasMember_aliasItem (c : Ctx) (n t : String) (b : Bool) :
+    aliasMember c (aliasItem n t b) =
+      (renderField c none (c.cs.snake t) t [.required] true b none >>= fun fld => pure fld.toList) := by
+  cases b <;> rfl
+
+theorem aliasMember_leaf {c : Ctx} {n t : String} {b : Bool} {fs : List RField}
+    (h : aliasMember c (aliasItem n t b) = .ok fs) : ∀ f ∈ fs, Scope.leaf f.ty = t := by
+  rw [aliasMember_aliasItem] at h
+  obtain ⟨fld, hfld, h⟩ := bind_ok h
+  simp only [pure, Except.pure, Except.ok.injEq] at h
+  subst h
+  exact renderField_leaf hfld
+
+/-- the leaves of the flattened members made from aliased fragments are the alias targets -/
+theorem aliasMembers_leaf {c : Ctx} {al : List Item} {extra : List (List RField)}
+    (h : al.mapM (aliasMember c) = .ok extra) {P : String → Prop} {sname : String}
+    (hal : ∀ a ∈ al, ∃ tgt b, a = aliasItem sname tgt b ∧ P tgt) :
+    ∀ f ∈ extra.flatten, P (Scope.leaf f.ty) := by
+  intro f hf
+  obtain ⟨fs, hfs, hf⟩ := List.mem_flatten.mp hf
+  obtain ⟨a, ha, hfa⟩ := mapM_ok_mem h fs hfs
+  obtain ⟨tgt, b, rfl, ht⟩ := hal a ha
+  rw [aliasMember_leaf hfa f hf]
+  exact ht
+
 theorem renderType_defines (c : Ctx) (name : String) (fs : List RField) (vs : List RVariant) :
     name ∈ Scope.defines (renderType c name fs vs) := by
   unfold renderType
@@ -204,8 +230,9 @@ def VariantStep (c : Ctx) (f : Nat) (pfx : String) (vt : TypeId) (mine : List Va
   (mine ≠ [] ∧ thisV = { name := vname, payload := some (.path sname) } ∧
     ((∃ fid fr, mine = [.spread fid fr] ∧ thisItems = [aliasItem sname fr.name (fragmentIsRecursive c.q fid)]) ∨
      (∃ r, calcVariantSels c f sname pfx vt mine = .ok r ∧
-        ((∃ a tl, r.2.2 = a :: tl ∧ thisItems = a :: r.2.1) ∨
-         (r.2.2 = [] ∧ thisItems = renderType c sname r.1 [] ++ r.2.1)))))
+        ((∃ a, r.1 = [] ∧ r.2.2 = [a] ∧ thisItems = a :: r.2.1) ∨
+         ((∀ a, r.1 = [] → r.2.2 = [a] → False) ∧ ∃ extra, r.2.2.mapM (aliasMember c) = .ok extra ∧
+            thisItems = renderType c sname (r.1 ++ extra.flatten) [] ++ r.2.1)))))
 
 theorem calcVariants_ok {c : Ctx} {f : Nat} {name pfx : String} {vsels : List VariantSel} {vt : TypeId}
     {rest : List TypeId} {vs : List RVariant} {items : List Item}
@@ -243,14 +270,16 @@ theorem calcVariants_ok {c : Ctx} {f : Nat} {name pfx : String} {vsels : List Va
       · cases hs
     · obtain ⟨r, hr0, h⟩ := bind_ok h
       split at h
-      · rename_i a tl' hal
+      · rename_i a hfs hal
         simp only [pure_bind] at h
         obtain ⟨vs', items', hr, h1, h2⟩ := fin h
-        exact ⟨vname, _, _, vs', items', hvn, hr, h1, h2, .inr ⟨by simp [hm], rfl, .inr ⟨r, hr0, .inl ⟨a, tl', hal, rfl⟩⟩⟩⟩
+        exact ⟨vname, _, _, vs', items', hvn, hr, h1, h2, .inr ⟨by simp [hm], rfl, .inr ⟨r, hr0, .inl ⟨a, hfs, hal, rfl⟩⟩⟩⟩
       · rename_i hal
+        obtain ⟨extra, hex, h⟩ := bind_ok h
         simp only [pure_bind] at h
         obtain ⟨vs', items', hr, h1, h2⟩ := fin h
-        exact ⟨vname, _, _, vs', items', hvn, hr, h1, h2, .inr ⟨by simp [hm], rfl, .inr ⟨r, hr0, .inr ⟨hal, rfl⟩⟩⟩⟩
+        exact ⟨vname, _, _, vs', items', hvn, hr, h1, h2,
+          .inr ⟨by simp [hm], rfl, .inr ⟨r, hr0, .inr ⟨hal, extra, hex, rfl⟩⟩⟩⟩
 
 theorem calcVariantSels_inline_ok {c : Ctx} {f : Nat} {sname pfx : String} {vt t : TypeId} {sub : List Sel}
     {rest : List VariantSel} {fs : List RField} {items al : List Item}
@@ -614,7 +643,7 @@ theorem rstep2 (hG : GOK c u G) (f : Nat) (H2 : RStmt2 c u G f) (H3 : RStmt3 c u
             have ⟨hg, hfr⟩ := hmine.spr g fr (by rw [hm]; exact List.mem_cons_self)
             exact .inr (hG.frag g fr hg hfr)
         · obtain ⟨r1, r2, r3⟩ := H3 _ _ _ _ r.1 r.2.1 r.2.2 hmine hr0
-          rcases hstep with ⟨a, tl, hal, rfl⟩ | ⟨hal, rfl⟩
+          rcases hstep with ⟨a, _, hal, rfl⟩ | ⟨hal, extra, hex, rfl⟩
           · obtain ⟨tgt, b, rfl, htgt⟩ := r3 a (by rw [hal]; exact List.mem_cons_self)
             refine ⟨fun t ht => ?_, fun it hit n hn => ?_⟩
             · subst ht
@@ -627,7 +656,12 @@ theorem rstep2 (hG : GOK c u G) (f : Nat) (H2 : RStmt2 c u G f) (H3 : RStmt3 c u
           · refine ⟨fun t ht => ?_, ?_⟩
             · subst ht
               exact .inl (mem_defines_left _ (renderType_defines c _ _ _))
-            · exact (renderType_closed c _ r.1 [] r.2.1 r1 (fun v hv => (by cases hv))).append
+            · have hextra : ∀ f ∈ extra.flatten, Res G r.2.1 (Scope.leaf f.ty) :=
+                aliasMembers_leaf hex (P := fun n => Res G r.2.1 n)
+                  (fun a ha => let ⟨tgt, b, e, ht⟩ := r3 a ha; ⟨tgt, b, e, .inr ht⟩)
+              exact (renderType_closed c _ (r.1 ++ extra.flatten) [] r.2.1
+                  (fun f hf => (List.mem_append.mp hf).elim (r1 f) (hextra f))
+                  (fun v hv => (by cases hv))).append
                 (r2.mono mem_defines_right)
     refine ⟨fun v hv t ht => ?_, (key.2.mono mem_defines_left).append (ih2.mono mem_defines_right)⟩
     rcases List.mem_cons.mp hv with rfl | hv
@@ -1305,7 +1339,7 @@ theorem nstep2 (f : Nat) (H2 : NStmt2 c f) (H3 : NStmt3 c f) : NStmt2 c (f + 1) 
       · rw [hmine]
         simp [Scope.defines, aliasItem_defines, vselsNames]
       · obtain ⟨r1, r2⟩ := H3 _ _ _ _ r.1 r.2.1 r.2.2 hr0
-        rcases hstep with ⟨a, tl, hal, rfl⟩ | ⟨_, rfl⟩
+        rcases hstep with ⟨a, _, hal, rfl⟩ | ⟨_, extra, _, rfl⟩
         · have := r2 a (by rw [hal]; exact List.mem_cons_self)
           rw [defines_cons, this, r1]; rfl
         · rw [defines_append, defines_renderType, r1]
@@ -1597,7 +1631,7 @@ theorem calc_shape (hA : ∀ n t b, P (aliasItem n t b)) (hR : ∀ n fs vs, ∀ 
             · simp only [List.mem_singleton] at hit
               subst hit; exact hA _ _ _
             · obtain ⟨r1, r2⟩ := H3 _ _ _ _ r.1 r.2.1 r.2.2 hr0
-              rcases hstep with ⟨a, tl, hal, rfl⟩ | ⟨_, rfl⟩
+              rcases hstep with ⟨a, _, hal, rfl⟩ | ⟨_, extra, _, rfl⟩
               · rcases List.mem_cons.mp hit with rfl | hit
                 · exact r2 _ (by rw [hal]; exact List.mem_cons_self)
                 · exact r1 it hit
